@@ -394,6 +394,11 @@ impl<S: BitmapSlice + Send + Sync> PassthroughFs<S> {
         flags: u32,
         fuse_flags: u32,
     ) -> io::Result<(Option<Handle>, OpenOptions, Option<u32>)> {
+        // A truncating open changes the file size: not allowed when seal_size is set.
+        if self.seal_size.load(Ordering::Relaxed) && flags & (libc::O_TRUNC as u32) != 0 {
+            return Err(eperm());
+        }
+
         let killpriv = if self.killpriv_v2.load(Ordering::Relaxed)
             && (fuse_flags & FOPEN_IN_KILL_SUIDGID != 0)
         {
@@ -781,6 +786,15 @@ impl<S: BitmapSlice + Send + Sync> FileSystem for PassthroughFs<S> {
             Self::create_file_excl(&dir_file, name, flags, args.mode & !(args.umask & 0o777))?
         };
 
+        // The file exists already: opening it with O_TRUNC would change its size, which is not
+        // allowed when seal_size is set.
+        if new_file.is_none()
+            && self.seal_size.load(Ordering::Relaxed)
+            && args.flags & (libc::O_TRUNC as u32) != 0
+        {
+            return Err(eperm());
+        }
+
         let entry = self.do_lookup(parent, name)?;
         let file = match new_file {
             // File didn't exist, now created by create_file_excl()
@@ -916,6 +930,12 @@ impl<S: BitmapSlice + Send + Sync> FileSystem for PassthroughFs<S> {
         flags: u32,
         fuse_flags: u32,
     ) -> io::Result<usize> {
+        // pwrite(2) on an O_APPEND description ignores the offset and appends: with seal_size set
+        // such a write always changes the file size, whatever `offset` and `size` say.
+        if self.seal_size.load(Ordering::Relaxed) && flags & (libc::O_APPEND as u32) != 0 {
+            return Err(eperm());
+        }
+
         let data = self.get_data(handle, inode, libc::O_RDWR)?;
 
         // Manually implement File::try_clone() by borrowing fd of data.file instead of dup().
